@@ -175,6 +175,49 @@ fn late_first(rt: &tokio::runtime::Runtime, successors: usize, group_ops: usize,
     1
 }
 
+/// directed: the manager is dropped DURING PANIC UNWINDING of the thread that owns it, with batches still inside the
+/// serializers / held back; when the unwinding is over everything that was submitted must be in the store
+fn dropped_while_unwinding(rt: &tokio::runtime::Runtime, nbatches: usize, delay_mod: u64, group_ops: usize) -> u64 {
+    let db = MockDb::default();
+    db.0.group_ops.store(group_ops, Ordering::Relaxed);
+    db.0.delay_mod.store(delay_mod, Ordering::Relaxed);
+    db.0.delay_seed.store(0xABCDEF, Ordering::Relaxed);
+    let engine = DbBacked::new(db.clone(), Configuration::builder().serialization_workers(2).build());
+    let manager = engine.new_write_manager();
+    let map = engine.new_single_map::<Col, u64>();
+    let mut batches = Vec::new();
+    let mut model: BTreeMap<u64, u64> = BTreeMap::new();
+    for b in 0..nbatches {
+        let mut wb = manager.new_write_batch();
+        rt.block_on(map.insert(b as u64 % 3, 5000 + b as u64, &mut wb));
+        model.insert(b as u64 % 3, 5000 + b as u64);
+        batches.push(wb);
+    }
+    let desc = format!("directed: {nbatches} batches submitted by a thread that then panics; the write manager is dropped while that thread unwinds (delay_mod={delay_mod}, group_ops={group_ops})");
+    eprintln!("LAST-HISTORY directed: {desc}");
+    drop(map);
+    let prev = std::panic::take_hook();
+    std::panic::set_hook(Box::new(|_| {}));
+    let h = std::thread::spawn(move || {
+        let manager = manager;
+        for wb in batches { manager.submit_write_batch(wb); }
+        panic!("owner of the write manager panics");
+    });
+    let _ = h.join();
+    std::panic::set_hook(prev);
+    let wide = db.0.wide.lock().unwrap();
+    let mut got: BTreeMap<u64, u64> = BTreeMap::new();
+    for k in 0..3u64 {
+        if let Some(b) = wide.get(&wide_key::<Col, u64>(&k)) {
+            got.insert(k, qbice_serialize::postcard::decode::<u64>(b, &qbice_serialize::Plugin::default()).unwrap());
+        }
+    }
+    if got != model {
+        report_found("batches submitted before the write manager was dropped (during unwinding) are not in the store when the drop returns", &desc, &format!("{got:?}"), &format!("{model:?}"));
+    }
+    1
+}
+
 fn main() {
     let seed = seed_from_args();
     let mut rng = Rng(seed.wrapping_mul(0x2545F4914F6CDD1D) ^ 0xC10C10);
@@ -193,6 +236,9 @@ fn main() {
                 }
             }
         }
+    }
+    for (nb, dm, go) in [(2usize, 300u64, 0usize), (5, 300, 0), (5, 50, 2), (9, 300, 50)] {
+        done += dropped_while_unwinding(&rt, nb, dm, go);
     }
     for i in 0..n {
         let r = std::panic::catch_unwind(std::panic::AssertUnwindSafe(|| one_history(&rt, &mut rng, i)));
